@@ -40,7 +40,7 @@ interface Named { id: ID }
 type Obj implements Node & Named { id: ID x: Int y: Int! o: Obj l: [Obj] who: Named }
 type Other implements Node & Named { id: ID z: Int }
 union U = Obj | Other
-type Query { a: Int b: Int c: Int! o: Obj n: Obj! l: [Obj] ln: [Obj!] i: Node u: [U] s(v: Int = 7): Int ev: Obj tick(step: Int = 1): Int nums: [Int] w: Int el: [Obj] r(q: Int!): Int things: [Named] }
+type Query { a: Int b: Int c: Int! o: Obj n: Obj! l: [Obj] ln: [Obj!] i: Node u: [U] s(v: Int = 7): Int ev: Obj tick(step: Int = 1): Int nums: [Int] w: Int el: [Obj] r(q: Int!): Int things: [Named] lz: [Obj] lzn: [Obj!] numz: [Int!] mx: [[Int]] mo: [[Obj]] mon: [[Obj!]!] }
 type Mutation { m1: Obj m2: Obj m3: Int m4: [Obj] m5: Int! }
 type Subscription { ev: Obj tick(step: Int = 1): Int }
 """
@@ -86,6 +86,9 @@ ROOT = {
     "i": OBJ1, "u": [OBJ1, OTHER], "s": 5, "nums": [1, 2, 3], "w": 4, "el": [], "r": 6, "things": THINGS,
     "m1": OBJ1, "m2": OBJ2, "m3": 3, "m4": [OBJ1, OBJ2], "m5": 5,
     "bl": "", "bn": "", "bv": "v", "bls": ["x", ""],
+    # null items in nullable / non-null item positions, lists of lists (with an empty and a null inner list)
+    "lz": [OBJ1, None, OBJ2], "lzn": [OBJ2, None], "numz": [1, None, 3],
+    "mx": [[1, 2], [], None, [3]], "mo": [[OBJ1], [OBJ2, OBJ3], []], "mon": [[OBJ1, OBJ2], [OBJ3]],
 }
 
 import re as _re
